@@ -34,13 +34,37 @@ CHECKS = {
  "C12": ("per-class render skeletons with an alias marker (symbolic evaluation) + context-flow at operand/defining slots",
          "Every Term subclass in the live class table is rendered with a marker alias: exactly once and last when with_alias is on, never when off (R1); every operand slot of every composite must pass with_alias=False (R2); defining positions of all builder classes pass True (R3); GROUP BY/ORDER BY alias references are guarded by membership in the select list's aliases with alias-free fallback (R4).",
          "class-hierarchy resolution; user subclasses of Term outside the repository", "2/C12"),
+ "C05": ("quote-wrap-requires-escape rule over render skeletons + wrapper-class coverage lint over value positions",
+         "Decides the escaping discipline at every site that puts text between string quotes (inner text must be .replace(q, q*2)-escaped on the same quote, quote-free by kind, or a rendered term), the dialect wrapper coverage of every value position of the builders, and single-fragment value renderers. The decoded-value round trip over the value space is not decided.",
+         "SQL standard quote doubling and MySQL's backslash rule as oracles; symbolic evaluator subset", "2/C05"),
+ "C07": ("name-hole quoting analysis over render skeletons + folding of quote expressions under the six shipped contexts",
+         "Every hole that prints a name-bearing attribute (name/_name/_table_name/alias/table qualifier) in every renderer must sit between identical identifier-quote holes; the quote characters of definition and reference sites are evaluated under the six shipped SQL_CONTEXT records and must coincide; the quoted text must have the delimiter doubled. The name space and engine execution are not explored.",
+         "delimited-identifier rules per dialect; list of name-bearing attributes and exemptions confirmed by reading", "2/C07"),
+ "C11": ("exhaustive finite evaluation of the namespace decision (x3 copies) and qualifier choice + package-wide method-as-truth-value lint",
+         "Exhaustive over joins x FROM shape x foreign flag x UPDATE target for the three copies of the decision (96 cells) against the property's disjunction, and over with_namespace x alias x table for Field and Star; bare positions get with_namespace=False; bound methods used as truth values/comparison operands are flagged. Engine-side name resolution is not decided.",
+         "source shapes enumerated concretely; class-hierarchy resolution", "2/C11"),
+ "C13": ("statement skeletons per (class, kind) with condition-aware keyword multiplicity/order, bracket balance, empty-render folding; data/control-dependence extraction of cross-clause couplings",
+         "For 6 builder classes x 7 statement kinds every clause keyword occurs at most once on any consistent path and in the reference order; every renderer's literal brackets balance on every path; incomplete builders fold to '' in all copies of the guards; every (builder method, foreign clause read, attribute written) dependence triple must be in a reviewed table (order-sensitive ones are known findings). SQLite parser acceptance and str() equality over permutations are not decided.",
+         "reference clause-order tables per statement kind; disjoint-effects-commute argument", "2/C13"),
+ "C14": ("frozen guard table checked for presence, exception class and dominance (ast) + join availability data flow + C17 obligations",
+         "38 documented rejections: each must raise the documented exception reading the guarded attributes and dominate the write it protects (not inside a possibly-empty loop; every operand for set operations); do_join/JoinOn.validate must feed FROM, update table, CTEs, existing joins and the joined item into the availability set and raise iff the difference is non-empty; exactness of the set arithmetic inherits C17. 'Valid ones never are' over arbitrary object graphs is not decided beyond that.",
+         "guard table confirmed by reading (floor = today's count); Python set semantics", "2/C14"),
+ "C16": ("three-way sibling agreement (rendered slots / nodes_ traversal / replace_table rewrites) per class and per clause attribute",
+         "For every Term subclass and every clause attribute of every builder class: rendered U traversed children must be rewritten from the same attribute by the effective replace_table (super() delegation followed); holders of children must not inherit the no-op; FROM items must be recursed into; replace_table calls must resolve on the declared/narrowed class of the receiver; siblings agree. The string equality with 'built with new from the start' is not computed.",
+         "docstring contract 'replaces all occurrences'; class-hierarchy resolution", "2/C16"),
+ "C17": ("hash-key/eq-key comparison via render skeletons of __hash__, bool-eq lint at set sites, rendered-vs-traversed agreement",
+         "For every class defining __eq__/__hash__ the attributes that can influence the hash (through the get_sql skeleton it hashes) must be a subset of those compared by __eq__; set element classes must have a bool __eq__ or a hash separating every distinct reference; nodes_() must traverse every rendered child. Membership answers on generated objects are not computed.",
+         "Python data-model contract; hash collisions of distinct strings ignored", "2/C17"),
+ "C18": ("regex AST shape proof (re._parser) + symbolic folding of the Interval renderer",
+         "Exhaustive over 4 trim alternatives, 7 template slots and the shipped dialect templates: every alternative is anchored, consumes only zeros and the template's separators and touches retained text with a separator (so only whole zero fields at the ends can be removed); slot order, separators, sign, unit designator, per-dialect quoting form and the untrimmed special cases are folded from the renderer. Numeric read-back for arbitrary digit patterns is not computed.",
+         "field layout implied by the unit designator", "2/C18"),
 }
 
 NOT_APPLICABLE = {
  "C03": "equivalence of query results on a real SQLite engine over all databases; no clause is decidable from source without executing SQL (other technique family); its structural ingredients are decided under C06/C11/C13",
 }
 
-PENDING = ["C05", "C07", "C11", "C13", "C14", "C16", "C17", "C18"]
+PENDING = []
 
 
 def main():
